@@ -626,6 +626,40 @@ def printed_asts(rng: random.Random, n: int) -> list[str]:
     return out
 
 
+RG_SHAPES = [
+    "{X}", "{X} | {Y}", "\"x\" | {X}", "(!{X} ~ ANY)*", "(!({X} | \"y\") ~ ANY)*", "(!{X} ~ {Y})*", "{X} ~ {Y}", "{X}*", "{X}?", "{X}+",
+    "{X}{{2}}", "{X}{{1,2}}", "\"x\"", "'a'..'c' | {X}", "PUSH({X})", "!{X} ~ ANY", "&{X} ~ \"x\"", "#t = {X}", "({X})", "^\"k\" | {X}",
+    "(\"a\" | {X}) | \"b\"", "({X} | \"a\")*", "{X} ~ ({Y} | \"z\")?", "\"a\" | \"ab\" | {X}", "PEEK ~ {X}", "({X} ~ \"x\") | {Y}",
+]
+
+
+def rule_graphs(rng: random.Random, n: int, exhaustive: bool = False) -> list[str]:
+    """small grammars whose rules refer to each other in every way - also cyclically, left-recursively, to themselves, to
+    built-ins and to undefined names - with bodies in the shapes the optimizer passes look for: loading must still give a
+    Parser or a PestGrammarError"""
+    mods = ["", "", "_", "_", "@", "$", "!"]
+    out = []
+    if exhaustive:
+        # two rules a, b: every pair of shapes, references drawn from {a, b}, both silent or both normal
+        for sa in RG_SHAPES:
+            for sb in RG_SHAPES:
+                for (xa, ya, xb, yb) in (("b", "a", "a", "b"), ("a", "b", "b", "a"), ("b", "b", "a", "a")):
+                    for m in ("", "_"):
+                        out.append(f"a = {m}{{ {sa.format(X=xa, Y=ya)} }}\nb = {m}{{ {sb.format(X=xb, Y=yb)} }}")
+    for _ in range(n):
+        k = rng.choice([1, 2, 2, 3, 3, 4])
+        names = ["a", "b", "c", "d"][:k]
+        if rng.random() < 0.15:
+            names[rng.randrange(k)] = rng.choice(["WHITESPACE", "COMMENT", "SKIP"])
+        pool = names * 4 + ["ANY", "ASCII_DIGIT", "EOI", "SOI", "NEWLINE", "undefined_rule"]
+        lines = []
+        for nm in names:
+            sh = rng.choice(RG_SHAPES)
+            lines.append(f"{nm} = {rng.choice(mods)}{{ {sh.format(X=rng.choice(pool), Y=rng.choice(pool))} }}")
+        out.append("\n".join(lines))
+    return out
+
+
 def sentences(rng: random.Random, n: int, maxlen: int = 400) -> list[str]:
     out = []
     for i in range(n):
@@ -674,6 +708,8 @@ def build_texts(prop: str, tier: str, sd: int) -> tuple[list[str], dict]:
     src["character and token soups over the grammar alphabet"] = soups(rng, (200000 if prop == "C10" else 60000) if thorough else 12000)
     if prop == "C11":
         src["deep nesting (parentheses, prefix and postfix chains, PUSH, comments, long sequences)"] = deep_texts()
+        src["rule graphs (cyclic / left-recursive / self / built-in / undefined references in the shapes the optimizer rewrites)"] = \
+            rule_graphs(rng, 20000 if thorough else 3000, exhaustive=True)
     texts, seen, counts = [], set(), {}
     for name, ts in src.items():
         k = 0
